@@ -3,7 +3,7 @@
  "name": "get_free_blocks2_window",
  "props": ["C07"],
  "level": "U",
- "tier": "wip",
+ "tier": "quick",
  "harness": "h_get_free_blocks2_window",
  "loop_contracts": true,
  "unwind": 8,
